@@ -12,17 +12,17 @@ SEQ_NOTE = ("Trusted: the reference model (DESIGN.md Appendix A, every 'may' lis
             "state merging assumes shift-invariance of timestamps/CAS (thorough tier re-runs with exact fingerprints).")
 
 CHECKS = {
- "C01": dict(engine="seq", cat="model_checking", ref="§4 C01, §2.3",
+ "C01": dict(engine="seq+sched", cat="model_checking", ref="§4 C01, §2.3",
    technique="explicit-state BFS over command histories executing the real decode/handle/encode path, reference model in lock-step",
-   text="Every command history up to the depth bound over a 2-key alphabet (empty/binary/limit-sized values, flag extremes, TTLs, clock steps, flush, both eviction policies) is executed on the real code; after every command the responses and the full store dump are compared with the reference model (value, flags, CAS, key isolation, nothing lost).",
+   text="Every command history up to the depth bound over a 2-key alphabet (empty/binary/limit-sized values, flag extremes, TTLs, clock steps, flush, CAS stores that match and that are rejected, both eviction policies) is executed on the real code; after every command the responses and the full store dump are compared with the reference model (value, flags, CAS, key isolation, nothing lost). Second part (E1): one client's store-then-get on its key against every schedule of another client working on a different key (same and other shard) or reading the same key, all initial states, checked by linearizability.",
    note=SEQ_NOTE),
  "C02": dict(engine="seq", cat="model_checking", ref="§4 C02, §2.3",
    technique="explicit-state BFS over CAS histories on the real code with a token-uniqueness/iff oracle",
    text="All histories up to the bound of stores/RMW/deletes with CAS in {0,current,stale1,stale2,current+1,MAX,arbitrary} on 2 keys incl. expiry and re-creation; oracle: succeeds iff CAS matches, failure = 0x02 and bit-identical entry, new token non-zero, never carried before in the lifetime, and equal to what the store then holds.",
    note=SEQ_NOTE),
- "C05": dict(engine="seq", cat="model_checking", ref="§4 C05, §2.3",
+ "C05": dict(engine="seq+sched", cat="model_checking", ref="§4 C05, §2.3",
    technique="explicit-state BFS over TTL/clock/flush histories on the real code under an injected Timer, must-hit/must-miss window oracle",
-   text="All histories up to the bound over TTL {0,1,2,3,30d}, relative clock steps incl. exactly-to-expiry and one-second-before, delayed and immediate flush, every command kind on live/just-expired/long-expired items; oracle: must-hit before s+TTL, must-miss from last-mutation+TTL, expired = absent for every command, never visible again, nothing prolongs (also checked on the dump after every command).",
+   text="All histories up to the bound over TTL {0,1,2,3,30d}, relative clock steps incl. exactly-to-expiry and one-second-before, delayed and immediate flush, every command kind on live/just-expired/long-expired items; oracle: must-hit before s+TTL, must-miss from last-mutation+TTL, expired = absent for every command, never visible again, nothing prolongs (also checked on the dump after every command). Second part (E1): every presence-dependent command against concurrent get(s) on an expired, not yet collected item, every schedule, linearizability (expired = absent).",
    note=SEQ_NOTE),
  "C06": dict(engine="seq", cat="model_checking", ref="§4 C06, §2.3",
    technique="explicit-state BFS over add/replace/append/prepend histories on the real code against the reference model",
@@ -53,11 +53,11 @@ CHECKS.update({
    note=SCHED_NOTE),
  "C14": dict(engine="seq+sched", cat="model_checking", ref="§4 C14, §2.2, §2.3",
    technique="explicit-state BFS over histories with every eviction victim enumerated (RNG seam) + stateless DFS over all schedules of concurrent stores, bound checked on the dump",
-   text="Sequential: all histories up to the bound under RandomPolicy with limits {10,60,100,(34,200)} where every victim index is a branch; after every command sum(record sizes) <= L + last written record and the written record is present. Concurrent: 2-3 storing clients, all schedules up to the preemption bound and all victims: at rest sum <= L + sizes of the program's stores; deadlock/step-horizon detection gives termination.",
+   text="Sequential: all histories up to the bound under RandomPolicy with limits {10,34,60,100,(200)} where every victim index is a branch; after every command sum(record sizes) <= L + last written record and the written record is present. Concurrent: 2-3 storing clients (also 2x2), all schedules up to the preemption bound and all victims: at rest sum <= L + sizes of the program's stores, then sequential follow-up stores must keep the strict bound L + one record - with memory pressure during the race (6 racing pairs are listed known findings) and without (limit 400, then fill: holds); deadlock/step-horizon detection gives termination.",
    note=SEQ_NOTE + " " + SCHED_NOTE),
- "C15": dict(engine="seq", cat="model_checking", ref="§4 C15, §2.3",
+ "C15": dict(engine="seq+sched", cat="model_checking", ref="§4 C15, §2.3",
    technique="explicit-state BFS over histories on the real code under RandomPolicy, accounting counter (hook) compared with the dump after every command",
-   text="All histories up to the bound of every command kind on 3 keys under a generous limit: (accounted usage - sum of stored record sizes) must not change in any command, and no live item may disappear while the stored records fit under the limit (behavioural form, limit 130). The unchanged tree drifts at 5 call sites; each (unaccounted record, command) is a listed known finding.",
+   text="All histories up to the bound of every command kind on 3 keys under a generous limit: (accounted usage - sum of stored record sizes) must not change in any command, and no live item may disappear while the stored records fit under the limit (behavioural form, limit 130). The unchanged tree drifts at 5 call sites; each (unaccounted record, command) is a listed known finding; drift of any other amount outside the eviction loop is not listed. Second part (E1): programs whose commands account exactly when run alone (deletes, stores under fresh keys, reads): the drift must be unchanged across the concurrent phase under every schedule.",
    note=SEQ_NOTE),
  "C16": dict(engine="sched", cat="model_checking", ref="§4 C16, §2.2",
    technique="stateless DFS over all thread schedules of the real store under a controlled scheduler with deadlock (no enabled task) and step-horizon (livelock) detection",
@@ -84,11 +84,11 @@ CHECKS.update({
    note=NET_NOTE),
  "C17": dict(engine="net", cat="fault_enumeration", ref="§4 C17, §2.5",
    technique="exhaustive enumeration of connection-lifecycle sequences (8 ending kinds, limits 1..4, length <= limit+2, two ending orders) against the real accept loop/semaphore on loopback TCP with virtual time",
-   text="After every open/end event exactly min(open, limit) connections are served; after every history limit+1 fresh probes: exactly limit answered, the extra one as soon as a slot frees; accept loop alive.",
+   text="10 ending kinds (client close, quit, quitq, close mid-request, bad magic, oversized item then close, idle timeout, abortive reset, stall inside a request until the timeout, stall inside an oversized body until the timeout), plus queued clients that leave silently and connections reset before they were accepted. After every open/end event exactly min(open, limit) connections are served; after every history limit+1 fresh probes: exactly limit answered, the extra one as soon as a slot frees; accept loop alive (a refused connection is a violation).",
    note=NET_NOTE),
  "C18": dict(engine="net", cat="fault_enumeration", ref="§4 C18, §2.5",
-   technique="exhaustive enumeration of every cut offset of pipelined streams x 6 fault kinds on real loopback TCP with an observer connection, compared with in-process execution of the completed prefix",
-   text="Every byte offset 0..len x {close, half-close, reset after/before the server ran, corrupted magic, silence until the virtual idle timeout}: store content equals executing exactly the completed requests once and in order (after a reset: some prefix), responses complete, observer unaffected, fresh connection served.",
+   technique="exhaustive enumeration of every cut offset of pipelined streams x 7 fault kinds on real loopback TCP with an observer connection, compared with in-process execution of the completed prefix",
+   text="Every byte offset 0..len x {close, half-close, reset after the server ran / before it ran / before it even accepted, corrupted magic, silence until the virtual idle timeout}: store content equals executing exactly the completed requests once and in order (after a reset: some prefix), responses complete, observer connection alive and unaffected, fresh connection accepted and served.",
    note=NET_NOTE),
 })
 
@@ -99,7 +99,7 @@ CHECKS.update({
    note="Trusted: the harness profile really has overflow-checks on (profile.dev in mc/Cargo.toml); panic capture via a process-wide hook. " + NET_NOTE),
  "C11": dict(engine="seq", cat="model_checking", ref="§4 C11, §2.3",
    technique="explicit-state BFS over histories of every opcode x every outcome on the real code; every encoded response re-parsed by an independent parser",
-   text="62-command alphabet (every opcode, loud and quiet, hit/miss/exists/not-found/too-large/non-numeric, 250-byte and binary keys, opaques 0/0xabad1dea/0xffffffff/0x80000001), all histories to the bound: every response frame has magic 0x81, opcode and opaque echoed, data type 0, status in the table, body length = extras+key+value, 4 extras on hits, key only for getk, 8 bytes for counters, text on errors; exactly one frame per loud request. The same rules are applied to every response of the C12 socket runs.",
+   text="Socket part: pipelined getk of 0.07-1 MB items, read only after the server blocked on the full socket: every frame whole and in order. Sequential part: 62-command alphabet (every opcode, loud and quiet, hit/miss/exists/not-found/too-large/non-numeric, 250-byte and binary keys, opaques 0/0xabad1dea/0xffffffff/0x80000001), all histories to the bound: every response frame has magic 0x81, opcode and opaque echoed, data type 0, status in the table, body length = extras+key+value, 4 extras on hits, key only for getk, 8 bytes for counters, text on errors; exactly one frame per loud request. The same rules are applied to every response of the C12 socket runs.",
    note=SEQ_NOTE),
  "C19": dict(engine="seq-pair", cat="model_checking", ref="§4 C19, §2.3",
    technique="explicit-state BFS over pairs of real systems (loud run, toggled run); the loud/quiet toggle is part of the alphabet so every subset of positions is covered",
@@ -107,7 +107,7 @@ CHECKS.update({
    note=SEQ_NOTE),
  "C20": dict(engine="cfg", cat="exploration", ref="§4 C20, §2.6",
    technique="exhaustive configuration-grid enumeration: one real server process per CLI configuration, identical programs, transcript comparison",
-   text="Grid runtime-type x threads {1,2,8} x eviction x port x max-item-size x connection-limit (quick: covering subset of 8, thorough: all 96): byte-identical transcripts of the C01/C07 spanning-tree programs across configurations and agreement with the in-process run, item-size and connection limits enforced as configured (8 x limit simultaneous connections), one real-time TTL probe per configuration.",
+   text="Grid runtime-type x threads {1,2,8} x eviction x port x max-item-size x connection-limit (quick: covering subset of 8, thorough: all 96): byte-identical transcripts of the C01/C07 spanning-tree programs across configurations and agreement with the in-process run, item-size and connection limits enforced as configured (8 x limit simultaneous connections), one real-time TTL probe per configuration. Second part: in-process differential BFS, eviction policy none vs random with an unreachable limit, every history of the C01 alphabet (incl. rejected CAS stores) to depth 5-6: byte-identical responses and equal stores.",
    note="Trusted: timing enters only as patience (5 s for positive, 300 ms for negative expectations); servers are started by `mc serve` = cli::parser::parse + runtime_builder::create_memcrs_server + block_on(system_timer.run()), i.e. memcrsd's main() minus logging."),
 })
 
